@@ -69,9 +69,15 @@ class FunctionTranslator:
             if isinstance(n, ast.Call):
                 if isinstance(n.func, ast.Attribute) and n.func.attr in ("format", "split"):
                     self.site("<str method>", stack)     # str.format / str.split on literals and str values
+                elif ast.unparse(n.func) in ("open", "json.load", "files.get_sha256") and n.args \
+                        and isinstance(n.args[0], (ast.Name, ast.Attribute)):
+                    # the same callee is used on the file under test and on the tool's own files
+                    self.site(ast.unparse(n.func) + "(" + ast.unparse(n.args[0]) + ")", stack)
                 else:
                     self.site(ast.unparse(n.func), stack)
-            elif isinstance(n, ast.Subscript) and isinstance(n.slice, ast.Constant) and n.slice.value == 0:
+            elif isinstance(n, ast.Subscript) and isinstance(n.slice, ast.Constant) and n.slice.value == 0 \
+                    and not (isinstance(n.value, ast.Call) and isinstance(n.value.func, ast.Attribute)
+                             and n.value.func.attr == "split"):       # str.split() never returns an empty list
                 self.site("<subscript 0>", stack)
             elif isinstance(n, ast.BinOp) and isinstance(n.op, ast.Sub) \
                     and any("created" in ast.unparse(x) or "modified" in ast.unparse(x) for x in (n.left, n.right)):
